@@ -132,5 +132,54 @@ def rule_e3(repo):
     return res
 
 
+def rule_e4(repo):
+    """Side conditions of an identity are checked one by one with a flag that starts True.  The flag must
+    be monotone: inside the loop it may only be lowered (set to False, or and-ed), never overwritten by
+    the verdict on the current condition alone - otherwise only the last condition decides."""
+    from ..astutil import walk_no_nested
+    res = RuleResult('C19.E4', 'a flag that collects "all side conditions hold" over a loop is only ever lowered inside the loop', floor=2)
+    for m in repo.source_modules():
+        if not m.rel.startswith('integral/') or '/tests/' in m.rel:
+            continue
+        for f in m.all_funcs:
+            nodes = list(walk_no_nested(f.node, include_root=False))
+            for loop in nodes:
+                if not isinstance(loop, ast.For):
+                    continue
+                assigned = {}
+                for st in loop.body:
+                    for n in ast.walk(st):
+                        if isinstance(n, ast.Assign) and len(n.targets) == 1 and isinstance(n.targets[0], ast.Name):
+                            assigned.setdefault(n.targets[0].id, []).append(n)
+                        if isinstance(n, ast.AugAssign) and isinstance(n.target, ast.Name):
+                            assigned.setdefault(n.target.id, []).append(n)
+                for name, asg in sorted(assigned.items()):
+                    inits = [n for n in nodes if isinstance(n, ast.Assign) and len(n.targets) == 1 and is_name(n.targets[0], name) and
+                             isinstance(n.value, ast.Constant) and n.value.value is True and n.lineno < loop.lineno]
+                    if not inits:
+                        continue
+                    bad = []
+                    for a in asg:
+                        if isinstance(a, ast.AugAssign):
+                            if not isinstance(a.op, ast.BitAnd):
+                                bad.append(a)
+                            continue
+                        v = a.value
+                        lowered = (isinstance(v, ast.Constant) and v.value is False) or \
+                            (isinstance(v, ast.BoolOp) and isinstance(v.op, ast.And) and any(is_name(x, name) for x in v.values))
+                        if lowered:
+                            continue
+                        # an overwrite is harmless when the loop is left at once on a negative verdict
+                        leaves = any(isinstance(st, ast.If) and name in {x.id for x in ast.walk(st.test) if isinstance(x, ast.Name)} and
+                                     any(isinstance(y, (ast.Break, ast.Return, ast.Raise)) for y in ast.walk(st)) for st in loop.body)
+                        if not leaves:
+                            bad.append(a)
+                    res.add('%s :: %s :: all-conditions(%s over %s)' % (m.rel, f.qualname, name, src(loop.iter, 40)), not bad,
+                            'the flag is only lowered' if not bad else
+                            '`%s` overwrites the verdicts on the earlier elements: only the last condition decides whether the identity is applied' %
+                            src(bad[0], 60), '%s:%d' % (m.rel, loop.lineno))
+    return res
+
+
 def rules(repo):
-    return [rule_e1(repo), rule_e2(repo), rule_e3(repo)]
+    return [rule_e1(repo), rule_e2(repo), rule_e3(repo), rule_e4(repo)]
